@@ -201,6 +201,7 @@ def tasks(tier):
     ts = []
     ns = (4,) if tier == "quick" else (3, 4, 5)
     for fe in S.FRONTENDS + ("numpy:dictnotime", "xarray:twodims"):
+        ts.append((fe, 30, ["gross", "spike"], 1))
         for n in ns:
             for hs in (["gross"], ["spike"], ["probe"], ["press"], ["gross", "spike"], ["spike", "probe"], ["probe", "gross"], ["press", "gross"]):
                 ts.append((fe, n, hs, 2 if tier == "quick" else 3))
